@@ -37,7 +37,7 @@ func init() {
 			"F2 every copy into a fixed-size pooled buffer is bounded by guards whose constants fit the buffer including the destination offset (or the buffer is re-allocated to the source length), and re-slices of pooled buffers use lengths derived from the buffer; F3 two-sided slices have ordered bounds (or the MarshalSize-of-a-header-parsed-from-the-same-bytes idiom) and length-relative bounds are tested; " +
 			"F4 results of Attributes.GetRTPHeader/GetRTCPPackets, rtcp.Unmarshal and pion/rtp Unmarshal are used only on the success branch of their error; A4 read buffers are used only as buffer[:n]; D3 no blocking send/receive on an internal channel on an API path without a close-channel case or default (no wedge).",
 		notDecided:  "crash-freedom itself: panics whose absence rests on arithmetic invariants (ring/bitmap indices seq%size, packetArrivalTimeMap capacity arithmetic, flexfec XOR lengths and constant header offsets), nil dereferences, panics inside pion/rtp and pion/rtcp, termination of loops (all loops over untrusted counts are bounded by 16-bit fields; not checked mechanically), one-sided slices s[n:] whose bound a callee computed",
-		sels:        []sel{so("F5"), s("L4", `jitterbuffer`), s("F1"), s("F2"), so("F3"), s("F4"), s("A4"), s("D3")},
+		sels:        []sel{s("A5"), so("F6"), so("F5"), s("L4", `jitterbuffer`), s("F1"), s("F2"), so("F3"), s("F4"), s("A4"), s("D3")},
 		assumptions: append([]string{"comparisons are credited as guards whatever their direction/strictness (a missing guard is detected, an off-by-one in a present guard is not, except for constant guards of pooled-buffer copies where the arithmetic is checked)", "two evaluations of a condition built only from parameters and constants agree (path classes are split on such conditions)"}, stdAssume...),
 	})
 	def(&propDef{
@@ -78,7 +78,7 @@ func init() {
 			"T1 — retain/release typestate: every packet obtained from RTPBuffer.Get is released exactly once after its last use, every slot overwrite in RTPBuffer.Add/Clear releases the previous occupant exactly once, Get hands out only packets that passed a successful Retain (a double release would recycle a buffer that is still being retransmitted); " +
 			"C1 — ring, stream table and reference count are only touched under their mutexes; A1 — the original packet is forwarded exactly once after the copy; D5 — unbind removes the stream's ring.",
 		notDecided:  "which sequence numbers the ring holds (window arithmetic seq%size, half-range tests), RTX header field values, the padding arithmetic, that the retransmission goroutine has finished when Close returns (known finding under C11)",
-		sels: []sel{s("P3", `rtpbuffer\.RTPBuffer`), s("F2", `rtpbuffer`), s("B", `nack\.\(\*ResponderInterceptor\)`), s("T1"), so("T2"), s("C1", `pkg/nack\.(localStream|ResponderInterceptor)\.|rtpbuffer\.RetainablePacket\.`),
+		sels: []sel{so("F6", `rtpbuffer`), s("P3", `rtpbuffer\.RTPBuffer`), s("F2", `rtpbuffer`), s("B", `nack\.\(\*ResponderInterceptor\)`), s("T1"), so("T2"), s("C1", `pkg/nack\.(localStream|ResponderInterceptor)\.|rtpbuffer\.RetainablePacket\.`),
 			s("A1", `nack\.\(\*ResponderInterceptor\)`), s("D5", `nack\.ResponderInterceptor`)},
 		assumptions: stdAssume,
 	})
@@ -90,7 +90,7 @@ func init() {
 		explanation: "Decides a necessary structural clause for every long-lived container of the library (every map, slice, list, sync.Map and channel field of a struct type that another struct holds, plus slices local to goroutine loops and the jitter buffer's linked list): E1 — a container that grows on a traffic path (reachable from a per-packet closure, a goroutine entry or a pacer/estimator entry point) also shrinks on a traffic path, or is of a bounded kind (channel with a configured capacity, map keyed by a ≤16-bit type, owner struct replaced as a whole, per-call temporary); " +
 			"E2 — a shrink site that only executes when a struct field is set counts only if something in the program sets that field; E3 — where a growing slice is processed on an equality trigger len(x)==N, every path from that branch resets it (otherwise the length passes N and the trigger never fires again); D5 — per-stream containers filled by Bind*Stream are emptied by the matching Unbind*Stream.",
 		notDecided:  "the numeric bound itself; whether an existing shrink runs often enough; GC reachability through third-party objects; growth hidden inside pion/rtp, pion/rtcp or x/time/rate",
-		sels:        []sel{s("E1"), s("E2"), so("E3"), s("D5")},
+		sels:        []sel{s("C6", `keyed-update`), s("E1"), s("E2"), so("E3"), s("D5")},
 		assumptions: []string{"go/ssa and go/types model the program faithfully", "traffic paths are the call-graph closure of per-packet closures, goroutine entries and the exported per-packet entry points of pacers/estimators/recorders"},
 	}
 }
@@ -129,7 +129,7 @@ func init() {
 		explanation: "Decides the structural clauses the statement singles out: G1 — in every function that walks []*rtcp.RecvDelta with a cursor, no instruction that advances the cursor is control-dependent (post-dominator based, transitively) on a condition derived from a lookup in long-lived state (a comma-ok map lookup on a field, or a (T,bool) lookup predicate such as feedbackHistory.get): the arrival time decoded for a packet is independent of whether neighbouring packets are still in the history; " +
 			"G2 — in every symbol loop, the counter that feeds the attribution key (feedbackHistoryKey.sequenceNumber / acknowledgement.sequenceNumber) is advanced exactly once on every path through the loop body (path counting), or is the range index; F1 — every index into RecvDeltas / packet-derived slices is guarded; E2 — the flag that lets history.delete release the TWCC mapping is actually set.",
 		notDecided:  "arrival-time arithmetic (reference time ×64 ms, 250 µs deltas, RFC 8888 offsets), LRU contents of the sent-packet history, that each sent packet is reported at most once and in send order (value properties of history.buildReport), zero-valued acknowledgements emitted for unknown packets",
-		sels:        []sel{s("P3", `rtpfb\.history`), s("J3", `\|(pkg/rtpfb|internal/cc)[.:]`), s("G1"), s("G2"), s("F1", `rtpfb\.convertTWCC|FeedbackAdapter|rtpfb\.convert`), so("E2", `rtpfb\.history`), so("E1", `rtpfb\.history`)},
+		sels:        []sel{s("G3", `rtpfb`), s("P3", `rtpfb\.history`), s("J3", `\|(pkg/rtpfb|internal/cc)[.:]`), s("G1"), s("G2"), s("F1", `rtpfb\.convertTWCC|FeedbackAdapter|rtpfb\.convert`), so("E2", `rtpfb\.history`), so("E1", `rtpfb\.history`)},
 		assumptions: std,
 	}
 	props["C16"] = &propDef{
@@ -138,7 +138,7 @@ func init() {
 			"H2 — in the publishing function every pacer.SetTargetBitrate call and every invocation of the change callback receives the stored value itself (same SSA value or a reload of the field), and GetTargetBitrate returns that field (under SendSideBWE.lock by C1); " +
 			"H3 — every call path to a plain send on a channel that a Close method closes passes a closed test on its not-closed branch while a lock is read-held that the closing site holds exclusively (no send on a closed pipe, documented closed error otherwise); C5 — that wait-under-lock is deadlock-free; C1/C2 rows of the gcc types.",
 		notDecided:  "anything about the floating-point pipeline itself (rate = bits/dt with dt = 0, 0/0 in increase) beyond the fact that the clamp absorbs it; that feedback never blocks for long (consumers are goroutines fed through unbuffered pipes)",
-		sels:        []sel{s("C7", `pkg/gcc\.`), s("H1"), s("H2"), s("H3"), s("C5", `gcc\.`), s("C1", `pkg/gcc\.`), s("C2", `pkg/gcc\.`)},
+		sels:        []sel{s("A5", `pkg/(cc|gcc)\.`), s("C7", `pkg/gcc\.`), s("H1"), s("H2"), s("H3"), s("C5", `gcc\.`), s("C1", `pkg/gcc\.`), s("C2", `pkg/gcc\.`)},
 		assumptions: std,
 	}
 }
@@ -157,7 +157,7 @@ func init() {
 		explanation: "Decides the structural clauses: M1 — in FlexEncoder03.encodeFlexFecPacket all accesses to the coverage table (GetCoveredBy, ExtractMask1/2/3_03) use one and the same index value, so the masks written name exactly the packets that were combined, and the repair sequence number is advanced exactly once on every path that produces a packet and on none that does not; " +
 			"P2 + A1 — the application's packet is forwarded first, exactly once, unmodified (A3), and repair packets are injections issued only after it; B — what is buffered for XOR is a deep copy of what was sent (caller may reuse its buffer); F2 — the scratch buffer is re-allocated when a packet exceeds the pooled size; E3/C1 — the batch buffer is reset on every path from the batch-full trigger, under the stream mutex.",
 		notDecided:  "XOR recoverability itself, bit layout of the masks, header offsets and length recovery — algebra over byte values; the coverage mask construction (flexfec_coverage.go); FlexEncoder20 and the decoder (declared work in progress)",
-		sels:        []sel{s("M1"), so("P2", `flexfec`), s("A1", `flexfec`), s("A3", `flexfec`), s("B", `flexfec`), so("F2", `flexfec`), so("E3", `flexfec`), s("C1", `flexfec\.`)},
+		sels:        []sel{s("T3", `flexfec`), s("M1"), so("P2", `flexfec`), s("A1", `flexfec`), s("A3", `flexfec`), s("B", `flexfec`), so("F2", `flexfec`), so("E3", `flexfec`), s("C1", `flexfec\.`)},
 		assumptions: std,
 	}
 	props["C17"] = &propDef{
@@ -184,6 +184,13 @@ func init() {
 	add := func(id, text string) { props[id].explanation += " " + text }
 	add("C01", "K3 no loop compacts in place (out := xs[:0]) the slice it ranges over while an iteration can append more than one element (members would be dropped or bound twice).")
 	add("C02", "L4 a node inserted into a linked list is linked between two neighbours that cannot be the same node (no cycle, so no traversal that never ends); F5 every integer division/remainder by a non-constant is dominated by a test that excludes zero (ring sizes fixed at construction are listed as notes).")
+	add("C02", "A5 every call of an Attributes method that stores into its receiver (Set, GetRTPHeader, GetRTCPPackets) has a receiver known non-nil there: a fresh map, or a value tested against nil on every path.")
+	add("C16", "A5 the cc interceptor and the estimator never store into a nil Attributes map.")
+	add("C09", "G3 every lookup on an index map (integer values used as keys of the record map) is in comma-ok form and its value is used as a key only where ok is true: an acknowledgement for an unknown sequence number is never attributed to record 0.")
+	add("C14", "T3 the scratch buffer taken from the shared sync.Pool is given back at most once on every path (a second Put lets two encoders share one buffer).")
+	add("C12", "C6 (keyed update) per-stream state in a secondary map is only created under the critical section that read the registry the key came from: an Unbind in between cannot be undone by a late update.")
+	add("C13", "B also treats pion/rtp Packet.Unmarshal / Header.Unmarshal as storing sub-slices of their argument in the receiver.")
+	add("C04", "F6 the fixed-width write of the original sequence number into the RTX payload happens only after the payload field of the freshly allocated packet was assigned, on every feasible path class.")
 	add("C04", "P3 the ring's newest-sequence mark is only moved under a comparison with its previous value or in the first-packet branch.")
 	add("C07", "P3 the newest-sent sequence number (the reference for the in-order test) is only overwritten under a comparison with its previous value or in the first-packet branch; P1 also demands that a first-packet test of the packet counter reads it before the increment.")
 	add("C09", "P3 highestAcked only moves under a comparison with its previous value; J3 no sequence number is reduced by a remainder with 2^16-1 / 2^32-1.")
